@@ -52,7 +52,7 @@ fn fast_gnp_random_graph_directed(
         graph.add_node(Node::from_name(i));
     }
     let mut w: i32 = -1;
-    let lp = (1.0 - edge_probability).ln();
+    let lp = (-edge_probability).ln_1p();
     let mut v = 0;
     let mut edges = vec![];
     while v < num_nodes {
@@ -90,7 +90,7 @@ fn fast_gnp_random_graph_undirected(
         graph.add_node(Node::from_name(i));
     }
     let mut w: i32 = -1;
-    let lp = (1.0 - edge_probability).ln();
+    let lp = (-edge_probability).ln_1p();
     let mut v = 1;
     let mut edges = vec![];
     while v < num_nodes {
